@@ -56,7 +56,7 @@ CLAIMED = {
         "design": "DESIGN.md section 7 C11",
     },
     "C02": {
-        "text": "Coq refinement theorem: the polling interpreter model (transcription of CommandExecutor::step, the command handlers, LoopStack and BytecodePlayer::seek: clock-reset flag, stale fields after rewind, re-arming once ended, proposal+1) reports for a fresh player and every timestamp exactly the state of an independent event-driven semantics (instructions decoded to abstract commands; all instructions scheduled strictly before t executed plus the first one scheduled at t): colour (exact linear interpolation inside fades), pyro mask, ended flag, next event; seek terminates whenever the program makes progress; next event >= t; state held after the end; unknown opcodes stop. Tied to the code by differential runs of BOTH the polling model and the event-driven specification against the library on structured programs (all opcodes, nesting 0..5, jumps, zero durations, truncated arguments).",
+        "text": "Coq refinement theorem: the polling interpreter model (transcription of CommandExecutor::step, the command handlers, LoopStack and BytecodePlayer::seek: clock-reset flag, stale fields after rewind, re-arming once ended, proposal+1) reports for a fresh player and every timestamp exactly the state of an independent event-driven semantics (instructions decoded to abstract commands; all instructions scheduled strictly before t executed plus the first one scheduled at t): colour (exact linear interpolation inside fades), pyro mask, ended flag, next event; seek terminates whenever the program makes progress; next event >= t; state held after the end; unknown opcodes stop. Tied to the code by differential runs of BOTH the polling model and the event-driven specification against the library on structured programs (all opcodes, nesting 0..4 - deeper nesting is outside the property's domain and is exercised for memory safety by C03 -, jumps, zero durations, truncated arguments, programs whose live part lies beyond byte 65535, one player queried repeatedly).",
         "note": "Trusted: Coq kernel; hand-written model (exact integers: the float clock conversions of the code are the identity below 2^24 ms, the property's bound; colour inside a fade compared within exact-1-2^-12 < channel <= exact+2^-12 because the code truncates a binary32 evaluation); C API has no signal source (channel colours black, triggers never fire); extraction; harness. No axioms.",
         "technique": "Coq refinement proof (abstraction relation, one step = one instruction, induction over wake-ups) + differential correspondence of model and spec against the C++ interpreter",
         "design": "DESIGN.md section 7 C02",
@@ -68,19 +68,19 @@ CLAIMED = {
         "design": "DESIGN.md section 7 C09",
     },
     "C12": {
-        "text": "Coq theorems about a model of sb_trajectory_init_from_rth_plan_entry over the builder model (scale selection, seconds->milliseconds conversions, hold / neck / leg / post-delay phases, binary32 modelled bit-exactly): the generated bytes decode and last exactly the sum of the four phases in whole milliseconds, a landing entry has no leg, unknown actions fail, the scale is in 1..127 and (for binary32 coordinates) the smallest that holds the start point. Tied to the code by exact differential runs (generated bytes and total duration identical) plus an oracle from the property: probes along every leg within one quantum (+ millisecond quantisation of the phase boundaries) of the ideal piecewise-linear path.",
+        "text": "Coq theorems about a model of sb_trajectory_init_from_rth_plan_entry over the builder model (scale selection, seconds->milliseconds conversions, hold / neck / leg / post-delay phases, binary32 modelled bit-exactly): the generated bytes decode and last exactly the sum of the four phases in whole milliseconds, a landing entry has no leg, unknown actions fail, the scale is in 1..127 and (for binary32 coordinates) the smallest that holds the start point; the conversion with closed-form holds that the correspondence runs (entry times of weeks) equals the transcription. Tied to the code by exact differential runs (generated bytes and total duration identical) plus an oracle from the property: probes along every leg within one quantum (+ millisecond quantisation of the phase boundaries) of the ideal piecewise-linear path.",
         "note": "Trusted: Coq kernel; hand-written model; Base/F32.v rounding model (validated bit-for-bit by C20's primitive-operation cases; its error/monotonicity theorems are in Properties_C20); path-within-quantum is checked by the oracle on every run, not proved; extraction; harness. No axioms.",
         "technique": "Coq proof (phase durations through the builder round trip) + bit-exact differential correspondence + property oracle on probes",
         "design": "DESIGN.md section 7 C12",
     },
     "C16": {
-        "text": "Coq theorems about a bit-exact model of builder.c: init gives a decodable empty builder; every successful append-line / hold keeps the bytes decodable and adds exactly the requested duration (the halving recursion above 60 s loses nothing, never runs out of fuel for 32-bit durations); a call fails exactly when a coordinate is not representable (set-start also after the first segment) and a failing call returns no new state; a stored coordinate is within one quantum (plus binary32 rounding of the division) of the requested one. Tied to the code by exact differential runs: result code and buffer size after every call of every sequence up to length 4 over an 8-letter alphabet and long random sequences, finished trajectory bytes, final builder bytes; plus the property oracle (passes within one quantum of each requested point at its cumulative time).",
-        "note": "Trusted: Coq kernel; hand-written model following the repaired code (validation before any write); Base/F32.v; 'straight line in between' is implied by the decoded linear segments (C01) and checked by probes, not separately proved; extraction; harness. No axioms.",
+        "text": "Coq theorems about a bit-exact model of builder.c: init gives a decodable empty builder; every successful append-line / hold keeps the bytes decodable and adds exactly the requested duration (the halving recursion above 60 s loses nothing, never runs out of fuel for 32-bit durations); a call fails exactly when a coordinate is not representable (set-start also after the first segment) and a failing call returns no new state; a stored coordinate is within one quantum (plus binary32 rounding of the division) of the requested one; REFINEMENT: after any sequence of set-start / append-line / hold calls (failing calls included, durations of any size below 2^32 ms) the builder's bytes are exactly the encoding of a well-formed abstract trajectory whose segments are straight lines, which lasts exactly the sum of the durations requested by the successful calls and whose end point is the quantisation of the last requested point (builder_refines_spec), so C01's position theorem applies to whatever the builder produced; the closed-form hold used to run holds of weeks equals the loop. Tied to the code by exact differential runs: result code and buffer size after every call of every sequence up to length 4 over an 8-letter alphabet and long random sequences, finished trajectory bytes, final builder bytes; plus the property oracle (passes within one quantum of each requested point at its cumulative time).",
+        "note": "Trusted: Coq kernel; hand-written model following the repaired code (validation before any write); Base/F32.v; the round trip is proved for x, y, z at the end of every call sequence; yaw and the intermediate instants (cumulative time of each earlier call) are checked by probes on every run, not proved; extraction; harness. No axioms.",
         "technique": "Coq proof (builder output decodes, duration additivity by induction on the halving recursion) + bit-exact differential correspondence",
         "design": "DESIGN.md section 7 C16",
     },
     "C18": {
-        "text": "Coq theorems over the reals: the polynomial built from 1..8 Bezier control points and a duration evaluates to the de Casteljau curve at u/duration; derivative / scale / stretch / add-constant laws for every length; hodograph; the executable rational instance agrees with the real one; the factorial table regenerated from poly.c is the factorials; Horner evaluation in the binary32 model is within gamma_2n * sum|c_i||u|^i of the exact value for every coefficient list and argument (Higham's bound; 17*2^-24 for up to 8 coefficients), likewise a+b*u. Root finding (degree <= 3, libm-based in the code): the certificates used as the oracle are proved sound over the reals (interval Horner enclosure, exclusion by bisection, every real root inside the Cauchy bound lies in a reported box, a sign change certifies a root, extrema enclosures; closed forms for degree <= 2), so each run's verdicts are per-instance theorems. Tied to the code by differential runs within float evaluation bounds and against the certificates.",
+        "text": "Coq theorems over the reals: the polynomial built from 1..8 Bezier control points and a duration evaluates to the de Casteljau curve at u/duration (the code's second branch of sb_poly_make_linear for a duration below FLT_EPSILON is transcribed separately: constant midpoint, equal to the generic constructor elsewhere); derivative / scale / stretch / add-constant laws for every length; hodograph; the executable rational instance agrees with the real one; the factorial table regenerated from poly.c is the factorials; Horner evaluation in the binary32 model is within gamma_2n * sum|c_i||u|^i of the exact value for every coefficient list and argument (Higham's bound; 17*2^-24 for up to 8 coefficients), likewise a+b*u. Root finding (degree <= 3, libm-based in the code): the certificates used as the oracle are proved sound over the reals (interval Horner enclosure, exclusion by bisection, every real root inside the Cauchy bound lies in a reported box, a sign change certifies a root, extrema enclosures; closed forms for degree <= 2), so each run's verdicts are per-instance theorems. Tied to the code by differential runs within float evaluation bounds and against the certificates.",
         "note": "Trusted: Coq kernel; standard-library real-number axioms (sig_forall_dec, sig_not_dec, functional_extensionality_dep, classic); the Horner evaluation bound is proved (no axioms), the bounds for coefficient conversion and the root tolerances are assumed/calibrated, cubic root claims are per instance (certificate), not for all inputs; known finding D13 (extrema of degree > 3 unset). Extraction; harness.",
         "technique": "Coq proof over R (field identities, Coquelicot derivatives, verified interval/bisection certificates) + differential correspondence",
         "design": "DESIGN.md section 7 C18",
